@@ -19,9 +19,9 @@ request of a candidate's matching parameter; with caching no request is yielded 
 from __future__ import annotations
 
 import itertools
-from typing import Any, Dict, Iterable, List, Optional, Sequence, Tuple
+from typing import Any, Dict, List, Optional, Sequence, Tuple
 
-from mcx.core import Ctx, HarnessError, Part, digest, jdump, pmap
+from mcx.core import Ctx, HarnessError, Part, digest, pmap
 from odxmodel import emit, emit_variants
 from odxmodel import refmatcher as ref
 
